@@ -19,7 +19,7 @@ func init() {
 	property("C18",
 		"Static conformance of the no-crash / termination / error-location mechanisms: (a) the only reachable panic is the invalid-UTF-8 panic in the lexer and its guard implies an invalid encoding (RuneError with width 1); no unchecked type assertion, no integer division, log.Fatal only in main; (b) every token loop of the parser consumes a token on every path of an iteration and cannot continue at exhausted input (abstract evaluation with every window token = EOF, callee summaries 'errors at EOF'); every lexer loop reads a character per iteration and its guard is false at end of input; other loops are ranges or bounded counters; (c) every index/slice expression is discharged by a dominating comparison (range key, i < len, len > 0, i == len-1, next = i+1 < len) or by a reviewed exemption naming one function and operand; map updates target maps created by the same component; (d) every error returned by a repo function is returned or tested, and the failure branch returns a non-nil error (except the two environment callees whose failure is by design only logged); (e) error ranges are ordered (start token is the current or an earlier captured token) and no error is built from a synthesised or possibly unassigned token; (f) the environment-error flag only ever enables an error return or a log line, and lint construction equals normal construction with the flag off. NOT decided: stack depth for pathologically nested input, the wall-clock bound, FormatText's string-offset loop.",
 		[]string{"isLetter(0) = unicode.IsDigit(0) = isHexDigit(0) = false", "once the lexer has returned EOF it returns EOF forever (readChar at end of input leaves ch = 0 and changes no position)", "exemptions listed in /verif/exemptions.json (each names one function and operand with a reason)", "configuration values (command_config.json) are outside the property's quantifier"},
-		"C18.a", "C18.b", "C18.c", "C18.d", "C18.e", "C18.f", "C18.g", "C16.c", "C12.a", "C12.b")
+		"C18.a", "C18.b", "C18.c", "C18.d", "C18.e", "C18.f", "C18.g", "C18.h", "C16.c", "C12.a", "C12.b")
 
 	register(&Rule{ID: "C18.a", Doc: "no reachable crash construct except the guarded invalid-UTF-8 panic", Floor: 4, Run: c18a})
 	register(&Rule{ID: "C18.b", Doc: "loops terminate: progress on every path, no continuation at exhausted input", Floor: 30, Run: c18b})
@@ -27,6 +27,7 @@ func init() {
 	register(&Rule{ID: "C18.d", Doc: "errors of repo functions are propagated; failure branches return an error", Floor: 60, Run: c18d})
 	register(&Rule{ID: "C18.e", Doc: "error ranges ordered; error tokens are real tokens", Floor: 60, Run: c18e})
 	register(&Rule{ID: "C18.f", Doc: "lint mode only removes errors", Floor: 9, Run: c18f})
+	register(&Rule{ID: "C18.h", Doc: "token consumption does not depend on environment or data: successful returns reachable under the same token tests leave the window at the same place", Floor: 1, Run: c18h})
 	register(&Rule{ID: "C18.g", Doc: "lexer progress: every token arm consumes at least one character (entry test implies the reader's guard)", Floor: 5, Run: c18g})
 }
 
@@ -1211,4 +1212,100 @@ func c18g(c *Ctx) {
 		c.Check(!free, fmt.Sprintf("NextToken/return#%d/consumes", n), c.W.Pos(r.Pos()), "every path from the dispatch to this return reads at least one character (or the end-of-input readChar)", "a path from the token dispatch to this return consumes no character (a reader loop whose guard is not implied by the arm's entry test): NextToken would return the same empty token forever and the parser would never reach EOF")
 	}
 	c.Check(n >= 5, "NextToken/returns", c.W.FuncPos(fn), fmt.Sprintf("%d non-queued returns", n), "too few returns found")
+}
+
+// c18h: how many tokens a parse function consumes may depend only on the tokens. For any
+// two successful returns of a parser function whose path conditions are compatible as far
+// as token tests go (they differ only in environment / data conditions such as the lint
+// flag, map lookups, configuration), the current token at the return must be the same
+// term. Otherwise lint mode (or a different -s value) would leave the parser at a
+// different place in the input than normal mode.
+func c18h(c *Ctx) {
+	n := 0
+	for _, fn := range c.W.FuncsOf("parser") {
+		if isTestFunc(c.W, fn) || fn.Signature.Recv() == nil && len(fn.Params) == 0 {
+			continue
+		}
+		if len(fn.Params) == 0 || !typeIs(fn.Params[0].Type(), "parser", "Parser") {
+			continue
+		}
+		if len(c.Eff().Writes(fn)) == 0 || !c.Eff().WritesClass(fn, "parser.Parser.curToken") {
+			continue
+		}
+		t := c.T(fn)
+		type retInfo struct {
+			r   *ssa.Return
+			cur string
+			tok []conj // token-literal projections of the reaching condition
+		}
+		var rets []retInfo
+		for _, r := range returnsOf(fn) {
+			if !c.isSuccessRet(fn, r) {
+				continue
+			}
+			d := c.PC(fn).At(r.Block())
+			if d.unknown {
+				continue // too many paths: not decided for this return
+			}
+			m := t.MemBefore(r)
+			m.cellCls["$0.curToken"] = "parser.Parser.curToken"
+			cur := t.wholeLoad("$0.curToken", m)
+			rets = append(rets, retInfo{r, cur, d.cs})
+		}
+		if len(rets) < 2 {
+			continue
+		}
+		// two paths that differ only in environment / data conditions
+		isEnv := func(l string) bool {
+			return strings.Contains(l, "enableEnvironmentErrors") || strings.Contains(l, "compileSwitches") || strings.Contains(l, ".fonts") || strings.Contains(l, "commandConfig") || strings.HasSuffix(l, "]#1") || strings.Contains(l, "]#1 ")
+		}
+		sameTokens := func(a, b []conj) bool {
+			for _, x := range a {
+				for _, y := range b {
+					inX, inY := map[string]bool{}, map[string]bool{}
+					for _, l := range x {
+						inX[l] = true
+					}
+					for _, l := range y {
+						inY[l] = true
+					}
+					nd := 0
+					ok := true
+					for l := range inX {
+						if !inY[l] {
+							nd++
+							if !isEnv(l) {
+								ok = false
+							}
+						}
+					}
+					for l := range inY {
+						if !inX[l] {
+							nd++
+							if !isEnv(l) {
+								ok = false
+							}
+						}
+					}
+					if ok && nd > 0 {
+						return true
+					}
+				}
+			}
+			return false
+		}
+		for i := 0; i < len(rets); i++ {
+			for j := i + 1; j < len(rets); j++ {
+				if !sameTokens(rets[i].tok, rets[j].tok) {
+					continue
+				}
+				if strings.Contains(rets[i].cur, "mu(") || strings.Contains(rets[j].cur, "mu(") || strings.Contains(rets[i].cur, "!L") || strings.Contains(rets[j].cur, "!L") {
+					continue
+				}
+				n++
+				c.Check(rets[i].cur == rets[j].cur, fmt.Sprintf("%s/returns#%d-%d", c.W.FuncKey(fn), i, j), c.W.Pos(rets[j].r.Pos()), "both returns leave the same current token", fmt.Sprintf("two successful returns that are reached under the same token tests leave the parser at different tokens (%s at %s vs %s here): how much input is consumed depends on something other than the input (lint mode, switches, configuration)", pretty(rets[i].cur), c.W.Pos(rets[i].r.Pos()), pretty(rets[j].cur)))
+			}
+		}
+	}
+	c.Check(true, "return-pairs", "-", fmt.Sprintf("%d comparable return pairs", n), fmt.Sprintf("only %d comparable return pairs found", n))
 }
